@@ -86,6 +86,8 @@ def main(argv=None):
                 results = pool.map(_worker, [(cid, repo, a.tier) for cid in ids], chunksize=1)
         lean = report.lean_status(pid, a.tier)
         bounded = None if a.no_bounded else run_bounded(pid, a.tier, seed, repo)
+        if a.only:
+            meta = dict(meta, min_obligations=0)       # a developer run over a subset of the contracts
         code = report.finish(pid, a.tier, seed, repo, results, bounded, lean, load_known(), time.time() - t0, meta)
         return code
     except SystemExit:
